@@ -189,9 +189,12 @@ def typed_layer(ctx, n_pkgs, n_streams, max_cuts):
                             ctx.case(("typed-cut", lang, pname, pre), sample={"layer": "typed", "reader": lang, "protocol": pname,
                                      "cut": cut, "of": len(stream), "reported_error": not okk, "values_delivered": max(0, len(delivered) - 1)})
                             ctx.count("typed_error_kind:" + lang, (err.strip().split(":")[0] or "ok")[:40] if not okk else "ACCEPTED")
-                            if okk or not is_prefix or (lang == "c++" and "rc" in err):
-                                what = "completed normally" if okk else "delivered values that were never written"
-                                ctx.report("typed:%s:%s" % (lang, "accepted-truncated" if okk else "wrong-values-before-error"),
+                            crashed = lang == "c++" and not okk and "ERR:" not in err
+                            if okk or not is_prefix or crashed:
+                                what = ("completed normally" if okk else
+                                        ("crashed instead of reporting an error (%s)" % err[-80:] if crashed else
+                                         "delivered values that were never written"))
+                                ctx.report("typed:%s:%s" % (lang, "accepted-truncated" if okk else ("crash" if crashed else "wrong-values-before-error")),
                                            "%s reader %s on a stream cut at byte %d of %d (protocol %s)" % (lang, what, cut, len(stream), pname),
                                            {"layer": "typed", "reader": lang, "model": gp.pkg.yaml(), "namespace": gp.pkg.namespace,
                                             "protocol": pname, "stream_hex": stream.hex(), "cut": cut, "delivered": delivered[-3:]})
